@@ -33,11 +33,13 @@ assumptions = [
     "malloc never fails; sizes far below SIZE_MAX",
 ]
 trusted = ["hand-written model MptModel/Impl/Heap.lean (callbacks = harness traits) tied to mptcore/array/*.c by harness/drv_elem.c",
+           "C++ part: MptModel/Impl/HeapXX.lean tied to typed_array<Elem>/unique_array<Elem>, buffer::trim/skip, content<T>::set_length "
+           "by harness/drvxx_array.cpp (Elem logs tokens in its constructors/destructor; C++ constructors cannot be refused)",
            "legality of the code's callback log is judged by the harness itself (live-token table in drv_array.c)"]
 
 
 def corpus(chk):
-    return gen.corpus(id)
+    return [(n, s) for n, s in gen.corpus(id) if s and s[0].startswith("a ")]
 
 
 SETUPS = {
@@ -162,6 +164,32 @@ def scripts(tier, seed, scale=1):
     out += random_scripts(tier, seed, scale)
     return out
 
+
+class _XX:
+    """second part: typed_array<Elem> / unique_array<Elem> of the C++ layer (Elem logs tokens in its constructors
+    and destructor; C++ constructors cannot be refused, so there is no failure schedule here)"""
+    id = "C05"
+    area = "elem"
+    driver = "drvxx_array"
+    cxx = True
+    fixed_lines = 1
+    link_extra = ["-fno-sanitize=vptr"]
+
+    @staticmethod
+    def corpus(chk):
+        return [(n, s) for n, s in gen.corpus(id) if s and s[0].startswith("x ")]
+
+    @staticmethod
+    def scripts(tier, seed, scale=1):
+        from . import c04
+        return c04._XX.gen(["te", "ue"], tier, seed, scale, id, True)
+
+    @staticmethod
+    def nontrivial(script, c_lines):
+        return nontrivial(script, c_lines)
+
+
+extra_parts = [_XX]
 
 _EV = re.compile(r" ev=(\S+)")
 
